@@ -2,14 +2,16 @@ package openapi3
 
 func newVisited() visitedComponent {
 	return visitedComponent{
-		header: make(map[*Header]struct{}),
-		schema: make(map[*Schema]struct{}),
+		header:   make(map[*Header]struct{}),
+		schema:   make(map[*Schema]struct{}),
+		pathItem: make(map[*PathItem]struct{}),
 	}
 }
 
 type visitedComponent struct {
-	header map[*Header]struct{}
-	schema map[*Schema]struct{}
+	header   map[*Header]struct{}
+	schema   map[*Schema]struct{}
+	pathItem map[*PathItem]struct{}
 }
 
 // resetVisited clears visitedComponent map
@@ -37,5 +39,16 @@ func (doc *T) isVisitedSchema(s *Schema) bool {
 	}
 
 	doc.visited.schema[s] = struct{}{}
+	return false
+}
+
+// isVisitedPathItem returns `true` if the *PathItem pointer was already visited
+// otherwise it returns `false`
+func (doc *T) isVisitedPathItem(p *PathItem) bool {
+	if _, ok := doc.visited.pathItem[p]; ok {
+		return true
+	}
+
+	doc.visited.pathItem[p] = struct{}{}
 	return false
 }
